@@ -32,7 +32,8 @@ Property theorems only (proofs are in `Lemmas/QueryBuiltins.lean`, `Lemmas/Query
    window is returned, the count is the length of the direct read and never exceeds the number of
    events `query_bucket` returns. Hypotheses carried over from C03: peewee — coherent key cache
    (`CacheOk`), events up to 24 h long for completeness, results clipped to the window; sqlite —
-   none (the epoch clause of C03 concerns reads without a start bound; a query always has one).
+   none (C03 has no epoch clause any more since the repair F22; it concerned reads without a start
+   bound, and a query always has one).
 4. *Objects (memory backend).* The only backend that keeps Python objects is the memory one; a
    builtin that "annotates, clears or re-times events in place" mutates objects it was handed by a
    read. `queries_only_read_heap`: from every reachable state of the heap model, every sequence of
